@@ -115,9 +115,11 @@ def run_shard(spec, ctx, acc):
             acc.skipped["not-eligible:" + ("cfgval" if t.is_cfgval() else "grammar")] += 1
             continue
         for bf in (1, 0):
+            from vp.props import c13
+
             core.hyp_search(acc, case_strategy(t, bf, ctx["tier"]), check,
                             seed=core.derive(ctx["seed"], PROP, t.label, t.clsid.hex(), bf),
-                            max_examples=n, known=known, rounds=2)
+                            max_examples=n, known=known, rounds=2, history=c13.related_history)
 
 
 def check(case) -> core.Out:
